@@ -59,7 +59,7 @@ def parse_bool(s):
     return s in ("1", "t", "T", "TRUE", "true", "True")
 
 
-STRINGS = ["", "abc", "NaN", "Inf", "-Inf", "1e999", "true", "false", "1", "0", "12", "255", "256", "-3", "1.5", "70000", "4294967296",
+STRINGS = ["9223372036854775807", "9223372036854775808", "9223372036854775296", "", "abc", "NaN", "Inf", "-Inf", "1e999", "true", "false", "1", "0", "12", "255", "256", "-3", "1.5", "70000", "4294967296",
            "18446744073709551615", "18446744073709551616", "t", "T", "True", "0x10", "1e2", "héllo", "\"q\"", "<b>&"]
 
 
@@ -91,8 +91,87 @@ def gen_val(rng, allow_nonfinite):
     return "%s:%d" % (rng.choice("oa"), rng.randrange(3))
 
 
-def gen(rng, tier):
+_ctor_tbl = None
+
+
+def ctor_table():
+    """initial state of every catalog constructor (dumped from the real objects) + the updateOnSameValue flag (translator)"""
+    global _ctor_tbl
+    if _ctor_tbl is None:
+        import os, re, subprocess
+        from . import c15
+        chars, _ = c15.names()
+        inp = "".join("%s dump %s\n" % (n, n) for n in chars)
+        out = subprocess.run([os.path.join(core.BUILD, "hcdrv"), "charac"], input=inp.encode(), stdout=subprocess.PIPE, timeout=120).stdout.decode()
+        gen = open(os.path.join(core.COQ, "Gen", "CatalogGen.v")).read()
+        same = set()
+        for m in re.finditer(r"mkCC \[([0-9; ]+)\].* (true|false);?$", gen, flags=re.M):
+            if m.group(2) == "true":
+                same.add(bytes(int(x) for x in m.group(1).split(";")).decode())
+        _ctor_tbl = {}
+        for l in out.splitlines():
+            t = l.split(" ")
+            if len(t) == 6:
+                perms = t[2] + ("S" if t[0] in same else "")
+                _ctor_tbl[t[0]] = (t[1], perms, t[3], t[4], t[5])
+    return _ctor_tbl
+
+
+def gen_ctor_cases(rng, per_ctor):
     cases = []
+    for name, (f, perms, mn, mx, init) in sorted(ctor_table().items()):
+        for _ in range(per_ctor):
+            ops = []
+            for _ in range(rng.randrange(1, 6)):
+                k = rng.random()
+                # a value equal to the current one is the interesting case for updateOnSameValue / permission checks
+                v = init if (k < 0.25 and init != "nil") else gen_val(rng, False)
+                if v.startswith("f:") and v.count(":") == 1:
+                    import struct
+                    v = ftok(struct.unpack("<d", struct.pack("<Q", int(v[2:], 16)))[0])
+                if v.startswith("s:") and v.count(":") == 1:
+                    v = stok(bytes.fromhex(v[2:]).decode("utf-8", "replace"))
+                if k < 0.6:
+                    ops.append("R:%d:%s" % (rng.randrange(1, 3), v))
+                elif k < 0.9:
+                    ops.append("L:" + v)
+                else:
+                    ops.append("GR:%d:%s" % (rng.randrange(1, 3), v))
+            cases.append({"id": "cc%d" % len(cases), "kind": "ctor/" + f,
+                          "line": "cc %s %s %s %s %s %s %s" % (name, f, perms, mn, mx, init, " ".join(ops))})
+    return cases
+
+
+BOUNDARY_INTS = [-1, 0, 1, 2 ** 31 - 1, 2 ** 31, 2 ** 32, 2 ** 53, 2 ** 63 - 513, 2 ** 63 - 1, -(2 ** 63)]
+BOUNDARY_FLOATS = [-1.0, 0.0, 0.5, 255.5, 4294967296.0, 9007199254740993.0, 9.2233720368547748e18, 9.223372036854775807e18, 1.8446744073709552e19, 1e19, 1e300, -1e300, 5e-324]
+BOUNDARY_STRS = ["9223372036854775807", "9223372036854775808", "18446744073709551615", "18446744073709551616", "-1", "1e999", "-1e999", "Inf", "-Infinity", "NaN", "0x7fffffffffffffff", "1e19"]
+
+
+def gen_boundary_cases(rng):
+    """one case per numeric constructor: values at the edges of the Go integer / float types and of its own bounds"""
+    cases = []
+    for name, (f, perms, mn, mx, init) in sorted(ctor_table().items()):
+        if f in ("string", "bool", "tlv8", "data"):
+            continue
+        vals = [ftok(x) for x in BOUNDARY_FLOATS] + ["i:%d" % x for x in BOUNDARY_INTS] + [stok(x) for x in BOUNDARY_STRS]
+        for b in (mn, mx):
+            if b.startswith("i:"):
+                z = int(b[2:])
+                vals += [ftok(float(z - 1)), ftok(float(z + 1)), "i:%d" % (z - 1), "i:%d" % (z + 1)]
+            if b.startswith("f:"):
+                import struct
+                x = struct.unpack("<d", struct.pack("<Q", int(b[2:], 16)))[0]
+                vals += [ftok(x - 0.5), ftok(x + 0.5), ftok(x)]
+        rng.shuffle(vals)
+        for k in range(0, len(vals), 8):
+            ops = [("L:" + v) if rng.random() < 0.5 else ("R:1:" + v) for v in vals[k:k + 8]]
+            cases.append({"id": "cb%d" % len(cases), "kind": "boundary/" + f,
+                          "line": "cc %s %s %s %s %s %s %s" % (name, f, perms, mn, mx, init, " ".join(ops))})
+    return cases
+
+
+def gen(rng, tier):
+    cases = gen_ctor_cases(rng, 3 if tier == "quick" else 60) + gen_boundary_cases(rng)
     n = 60 if tier == "quick" else 1500
     for f in FORMATS:
         for _ in range(n):
@@ -149,6 +228,8 @@ KIND = {"string": "s", "data": "s", "tlv8": "s", "bool": "b", "float": "f"}
 
 def nontrivial(c):
     t = c["line"].split(" ")
+    if t[0] == "cc":
+        t = t[1:]
     want = KIND.get(t[1], "i")
     for op in t[6:]:
         v = op.split(":", 2)[-1] if op[0] in "RG" and op[1] in ":R" else op.split(":", 1)[1]
@@ -167,6 +248,8 @@ def oracle(c, obs):
     if obs.startswith("DRIVER-DIED") or obs == "NO-OUTPUT":
         return "driver failure " + obs[:80]
     t = c["line"].split(" ")
+    if t[0] == "cc":
+        t = t[1:]
     f, mn, mx = t[1], t[3], t[4]
     head = obs.split(" cbs=")[0].split(" ")
     want = KIND.get(f, "i")
